@@ -27,7 +27,10 @@ var c03Faults = []string{"refuse", "hang", "reset", "short", "garbage", "500", "
 	// buffers gets stuck on its way to it
 	"deaf-to-upload",
 	// a response of unknown length that breaks off: the client must be able to tell
-	"short-chunked"}
+	"short-chunked",
+	// the first backend is an https:// one whose listener accepts the connection and never
+	// speaks: the TLS handshake hangs (the second backend, plain http, hangs before its headers)
+	"tls-hang"}
 
 type c03Cfg struct {
 	Strategy                           string
@@ -68,6 +71,8 @@ func c03Fault(h *helios, fbs []*wire.FaultBackend, fault string, slowStall time.
 		mode = "big"
 	case "deaf-to-upload":
 		mode = "deaf"
+	case "tls-hang":
+		mode = "hang"
 	}
 	for _, fb := range fbs {
 		fb.Stall = slowStall
@@ -139,6 +144,14 @@ func c03Run(cfgc c03Cfg, seq []string, concurrent bool, longStall bool) (key, wh
 		fb.HealthyBody = c03Healthy
 	}
 	cfg := baseConfig(cfgc.Strategy, fbs[0].URL(), fbs[1].URL())
+	httpsBackend := false
+	for _, f := range seq {
+		if f == "tls-hang" {
+			// for the whole job b0 is an https:// backend that cannot complete a handshake
+			httpsBackend = true
+			cfg.Backends[0].Address = "https://" + fbs[0].Addr()
+		}
+	}
 	cfg.Server.Timeouts = config.TimeoutConfig{Read: 1, Write: 1, Idle: 1, Handler: 1, Shutdown: 1, BackendDial: 1, BackendRead: 1, BackendIdle: 1}
 	if cfgc.SplitTimeouts {
 		cfg.Server.Timeouts = config.TimeoutConfig{Read: 30, Write: 30, Idle: 30, Handler: 30, Shutdown: 1, BackendDial: 1, BackendRead: 1, BackendIdle: 1}
@@ -201,6 +214,11 @@ func c03Run(cfgc c03Cfg, seq []string, concurrent bool, longStall bool) (key, wh
 		}
 	}
 	// recovery
+	if httpsBackend {
+		// a listener that cannot speak TLS does not turn into a healthy https backend: the
+		// operator takes it out, the backend that is left must serve normally
+		h.lb.RemoveBackend("b0")
+	}
 	for _, fb := range fbs {
 		fb.SetMode("healthy")
 		if fb.Lost {
@@ -383,6 +401,6 @@ func TestVerifC03W(t *testing.T) {
 	wg.Wait()
 	r.AddScenario(vres.Scenario{Name: "fault-sequences-over-the-wire", Engine: "W", Evaluations: evals, Distinct: int64(outs.N()), Outcomes: outs.N(),
 		Rule:       "one evaluation = one fault sequence against a fresh Helios instance with all timeouts 1s, followed by recovery probes and a gauge audit; distinct = distinct (fault, how it ended) vectors observed",
-		Bound:      fmt.Sprintf("%d configurations x {each of 9 faults once, twice sequentially, twice concurrently%s} + the 12s stalled-body case", len(cfgs), map[bool]string{true: ", every ordered pair of distinct faults, triples for breaker configurations", false: ""}[th]),
+		Bound:      fmt.Sprintf("%d configurations x {each of %d faults once, twice sequentially, twice concurrently%s} + the 12s stalled-body case", len(cfgs), len(c03Faults), map[bool]string{true: ", every ordered pair of distinct faults, triples for breaker configurations", false: ""}[th]),
 		Exhaustive: true, Sample: sample, Extra: map[string]interface{}{"wall_s": time.Since(start).Seconds(), "jobs": len(jobs)}})
 }
